@@ -11,12 +11,15 @@ package shell
 //@ loop 0: invariant 0 <= $i && $i <= len(r) && cmdsOk(r, $i)
 //@ loop 0: decreases len(r) - $i
 
-// Runner: runs one command; may fail with an error; does not touch spok's cache or history.
+// Runner: runs one command; may fail with an error; the command may change any project file
+// (fsid) but is assumed not to touch spok's cache directory or history.
 //@ iface Runner.Run
+//@ modifies fsid
 //@ ensures err == nil ==> result.Cmd == cmd
 
 // IntegratedRunner.Run as used by the exec builtin (interpreter internals assumed, see C13 / C20)
 //@ func (IntegratedRunner).Run
 //@ props C13 C20
+//@ modifies fsid
 //@ ensures [C20,result-names-the-command] err == nil ==> result0.Cmd == cmd
 //@ at call ListEnviron#0: assert [C13,passed-variables-come-after-the-process-environment] env == slicecat(environ, old(env))
